@@ -4,13 +4,17 @@ The property theorems for integer element types, instantiated at `Z64` — the m
 executes** for protocol records of scalar type `I`.
 
 * `C12_iff_I`   : `monotonic_prop` classifies every integer vector correctly.
+* `C16_linear_I` : Linear at `i64` reproduces every affine function with integer coefficients exactly, in
+                  range and extrapolated (the truncating secant slope `(y2-y1)/(x2-x1)` is exact there).
 * `C11_exact_I` : `get_lower_index` returns the bracket on every strictly increasing integer axis:
                   the integer O(1) guess `(n-1)/(x[n-1]-x[0]) * (q-x[0])` (truncating) is `q-x[0]` on a
                   unit-spaced axis and `0` otherwise, in both cases an index `≤ n-2`.
 -/
 import NdInterp.Props.C11
 import NdInterp.Props.C12
+import NdInterp.Lemmas.LinearCore
 import Mathlib.Tactic.Linarith
+import Mathlib.Tactic.Ring
 
 namespace NdInterp
 
@@ -86,6 +90,84 @@ theorem C11_exact_I (xs : List Z64) (q : Z64) (hs : StrictInc xs) :
     show (if (calcFrac _ _ _ _ q).val < 0 then none else some (calcFrac _ _ _ _ q).val.toNat) = _
     rw [hv, hs0]
     simp
+
+/-! ### Linear at `Z64` -/
+
+section orderonly
+variable {α : Type} [LinearOrder α] [Cmp α] [LawfulCmp α]
+
+/-- `is_in_range` decides the closed-range test (any lawful linear order; no field needed) -/
+theorem isInRange_eq' (xs : List α) (q : α) (h0 : 0 < xs.length) :
+    isInRange xs q = .ok (decide (InRange xs q)) := by
+  have hlast : xs.length - 1 < xs.length := by omega
+  unfold isInRange InRange
+  simp only [List.getElem?_eq_getElem h0, List.getElem?_eq_getElem hlast]
+  by_cases c1 : xs[0] ≤ q
+  · have : Cmp.le xs[0] q = true := (cmp_le _ _).mpr c1
+    simp only [this, if_true]
+    by_cases c2 : q ≤ xs[xs.length - 1]
+    · have h2 : Cmp.le q xs[xs.length - 1] = true := (cmp_le _ _).mpr c2
+      simp [h2, c1, c2, h0]
+    · have h2 : Cmp.le q xs[xs.length - 1] = false := (cmp_le_false _ _).mpr (not_le.mp c2)
+      simp [h2, c2]
+  · have : Cmp.le xs[0] q = false := (cmp_le_false _ _).mpr (not_le.mp c1)
+    simp [this, c1]
+
+variable [Add α] [Sub α] [Mul α] [Div α] [NatCast α] [ToUsize α]
+
+theorem rangeGate_eq' (ext : Bool) (xs : List α) (q : α) (h0 : 0 < xs.length) :
+    rangeGate ext xs q = if ext = true ∨ InRange xs q then .ok () else .error .outOfBounds := by
+  unfold rangeGate
+  cases ext with
+  | true => simp
+  | false =>
+    rw [isInRange_eq' xs q h0]
+    by_cases c : InRange xs q <;> simp [c]
+
+/-- normal form of `Linear::interp_into` on 1-D data, given that the lookup returns a bracket -/
+theorem linearInterp_of_index (ext : Bool) (xs ys : List α) (q : α) (i : Nat)
+    (h0 : 0 < xs.length) (hl : ys.length = xs.length)
+    (hi : lowerIndex xs q = .ok i) (hb : Bracket xs q i) :
+    linearInterp (V := α) ext xs ys q =
+      if ext = true ∨ InRange xs q then
+        .ok (calcFrac (xs[i]'(by have := hb.lt_len; omega)) (ys[i]'(by have := hb.lt_len; omega))
+          (xs[i + 1]'hb.lt_len) (ys[i + 1]'(by have := hb.lt_len; omega)) q)
+      else .error .outOfBounds := by
+  have hlt := hb.lt_len
+  unfold linearInterp
+  rw [rangeGate_eq' ext xs q h0]
+  split
+  · simp only [hi, rd_eq xs i (by omega), rd_eq xs (i + 1) hlt, rd_eq ys i (by omega),
+      rd_eq ys (i + 1) (by omega), bind, Except.bind, pure, Except.pure]
+    rfl
+  · rfl
+
+end orderonly
+
+/-- **C16_linear_I**: on a strictly increasing `i64` axis, data sampled from `a + b·x` with integer
+    `a`, `b` is reproduced exactly by Linear — every query the strategy answers (in range, or anywhere
+    with extrapolation) evaluates to `a + b·q`. -/
+theorem C16_linear_I (ext : Bool) (xs ys : List Z64) (q : Z64) (a b : Int) (hs : StrictInc xs)
+    (hl : ys.length = xs.length)
+    (hy : ∀ i (h : i < xs.length), (ys[i]'(by omega)).val = a + b * (xs[i]).val)
+    (hans : ext = true ∨ InRange xs q) :
+    linearInterp (V := Z64) ext xs ys q = .ok ⟨a + b * q.val⟩ := by
+  have h0 : 0 < xs.length := by have := hs.1; omega
+  obtain ⟨i, hi, hb⟩ := C11_exact_I xs q hs
+  rw [linearInterp_of_index ext xs ys q i h0 hl hi hb, if_pos hans]
+  have hlt := hb.lt_len
+  have hgap := (Z64.lt_def _ _).mp (hs.2 i (i + 1) (by omega) hlt)
+  have e1 := hy i (by omega)
+  have e2 := hy (i + 1) hlt
+  congr 1
+  show (⟨Int.tdiv ((ys[i + 1]).val - (ys[i]).val) ((xs[i + 1]).val - (xs[i]).val) * (q.val - (xs[i]).val) +
+      (ys[i]).val⟩ : Z64) = ⟨a + b * q.val⟩
+  congr 1
+  rw [e1, e2]
+  have hd : (xs[i + 1]).val - (xs[i]).val ≠ 0 := by omega
+  have : a + b * (xs[i + 1]).val - (a + b * (xs[i]).val) = b * ((xs[i + 1]).val - (xs[i]).val) := by ring
+  rw [this, Int.mul_tdiv_cancel _ hd]
+  ring
 
 /-! non-vacuity -/
 example : lowerIndex [(⟨0⟩ : Z64), ⟨1⟩, ⟨2⟩, ⟨5⟩] ⟨4⟩ = .ok 2 := by decide +kernel
